@@ -13,7 +13,7 @@ import json
 from . import common as C
 
 CONFIGS = ["-", "a1", "a3,e2", "a5,e3,twice", "e4", "cwd", "uid,gid", "pg", "cl2", "cwd,uid,gid,pg,cl2", "io=nnn", "io=ppp", "io=npi",
-           "io=iri", "io=pnr", "a2,e1,cwd,pg,cl1,io=npr", "nobin", "nobin,io=ppp,cwd", "clf13", "cl1,clf5,cwd", "clu", "io=pip,clu"]
+           "io=iri", "io=pnr", "io=iio", "io=iei", "io=nio", "io=neo", "a2,e1,cwd,pg,cl1,io=npr", "nobin", "nobin,io=ppp,cwd", "clf13", "cl1,clf5,cwd", "clu", "io=pip,clu"]
 THOROUGH_EXTRA = ["a9,e7,twice,cwd,uid,gid,pg,cl3,io=ppn", "io=rii", "io=iir", "io=nip,uid", "io=pin,gid,cl1", "a1,e1,io=inn", "twice", "a4,twice,e1"]
 PARENT_ERRNOS = [4, 11, 12, 24, 13, 5]
 CHILD_ERRNOS = [9, 13, 1]
